@@ -304,17 +304,76 @@ func dumpConsts(dev *LLRPDevice) *c14Consts {
 	return k
 }
 
-func TestVerifC14(t *testing.T) {
-	lines, w, done := verifIO(t)
-	defer done()
-
-	rd := newC14Reader(t)
-	defer rd.ln.Close()
-	_, portStr, _ := net.SplitHostPort(rd.ln.Addr().String())
-	if _, err := strconv.Atoi(portStr); err != nil {
-		t.Fatal(err)
+// c14Prepare turns a case line into the SDK-level arguments of the call (done before any barrier: building the
+// parameter values of large documents takes time)
+func c14Prepare(c c14Case) (reqs []dsModels.CommandRequest, params []*dsModels.CommandValue, note string) {
+	reqs = make([]dsModels.CommandRequest, len(c.Reqs))
+	for i, r := range c.Reqs {
+		var attrs map[string]interface{}
+		if r.A != nil {
+			attrs = map[string]interface{}{}
+			for k, a := range r.A {
+				switch {
+				case a.S != nil:
+					attrs[k] = *a.S
+				case a.I != nil:
+					attrs[k] = int(*a.I)
+				case a.F != nil:
+					attrs[k] = *a.F
+				default:
+					attrs[k] = nil
+				}
+			}
+		}
+		reqs[i] = dsModels.CommandRequest{DeviceResourceName: r.N, Type: r.T, Attributes: attrs}
 	}
+	if c.K == "r" {
+		return
+	}
+	params = make([]*dsModels.CommandValue, len(c.Params))
+	for i, p := range c.Params {
+		v, err := c14Value(p.V)
+		if err != nil {
+			note = "harness: " + err.Error()
+		}
+		params[i] = &dsModels.CommandValue{DeviceResourceName: p.N, Type: p.T, Value: v, Tags: map[string]string{}}
+	}
+	return
+}
 
+// c14Call issues one prepared command through the Driver's exported entry points, under recover
+func c14Call(d *Driver, devName string, proto protocolMap, kind string, reqs []dsModels.CommandRequest, params []*dsModels.CommandValue) (ans c14Answer) {
+	defer func() {
+		if r := recover(); r != nil {
+			ans.Panic = true
+			ans.PanicMsg = fmt.Sprint(r)
+		}
+	}()
+	if kind == "r" {
+		vals, err := d.HandleReadCommands(devName, proto, reqs)
+		ans.Err = err != nil
+		for _, v := range vals {
+			if v != nil {
+				ans.NVals++
+			}
+		}
+		return
+	}
+	err := d.HandleWriteCommands(devName, proto, reqs, params)
+	ans.Err = err != nil
+	return
+}
+
+func c14RunCase(d *Driver, devName string, proto protocolMap, c c14Case) c14Answer {
+	reqs, params, note := c14Prepare(c)
+	ans := c14Call(d, devName, proto, c.K, reqs, params)
+	if note != "" {
+		ans.Note = note
+	}
+	return ans
+}
+
+func newC14Driver() (*Driver, func()) {
 	sdk := &mocks.DeviceServiceSDK{}
 	sdk.On("UpdateDeviceOperatingState", mock.Anything, mock.Anything).Return(nil)
 	asyncCh := make(chan *dsModels.AsyncValues, 64)
@@ -328,8 +387,6 @@ func TestVerifC14(t *testing.T) {
 			}
 		}
 	}()
-	defer close(stopDrain)
-
 	d := &Driver{
 		lc:            logger.NewMockClient(),
 		activeDevices: make(map[string]*LLRPDevice),
@@ -337,6 +394,22 @@ func TestVerifC14(t *testing.T) {
 		svc:           sdk,
 		done:          make(chan struct{}),
 	}
+	return d, func() { close(stopDrain) }
+}
+
+func TestVerifC14(t *testing.T) {
+	lines, w, done := verifIO(t)
+	defer done()
+
+	rd := newC14Reader(t)
+	defer rd.ln.Close()
+	_, portStr, _ := net.SplitHostPort(rd.ln.Addr().String())
+	if _, err := strconv.Atoi(portStr); err != nil {
+		t.Fatal(err)
+	}
+
+	d, stopDrain := newC14Driver()
+	defer stopDrain()
 	const devName = "c14Reader"
 	proto := protocolMap{"tcp": {"host": "127.0.0.1", "port": portStr}}
 
@@ -367,55 +440,7 @@ func TestVerifC14(t *testing.T) {
 		return false
 	}
 
-	runCase := func(c c14Case) (ans c14Answer) {
-		defer func() {
-			if r := recover(); r != nil {
-				ans.Panic = true
-				ans.PanicMsg = fmt.Sprint(r)
-			}
-		}()
-		reqs := make([]dsModels.CommandRequest, len(c.Reqs))
-		for i, r := range c.Reqs {
-			var attrs map[string]interface{}
-			if r.A != nil {
-				attrs = map[string]interface{}{}
-				for k, a := range r.A {
-					switch {
-					case a.S != nil:
-						attrs[k] = *a.S
-					case a.I != nil:
-						attrs[k] = int(*a.I)
-					case a.F != nil:
-						attrs[k] = *a.F
-					default:
-						attrs[k] = nil
-					}
-				}
-			}
-			reqs[i] = dsModels.CommandRequest{DeviceResourceName: r.N, Type: r.T, Attributes: attrs}
-		}
-		if c.K == "r" {
-			vals, err := d.HandleReadCommands(devName, proto, reqs)
-			ans.Err = err != nil
-			for _, v := range vals {
-				if v != nil {
-					ans.NVals++
-				}
-			}
-			return
-		}
-		params := make([]*dsModels.CommandValue, len(c.Params))
-		for i, p := range c.Params {
-			v, err := c14Value(p.V)
-			if err != nil {
-				ans.Note = "harness: " + err.Error()
-			}
-			params[i] = &dsModels.CommandValue{DeviceResourceName: p.N, Type: p.T, Value: v, Tags: map[string]string{}}
-		}
-		err := d.HandleWriteCommands(devName, proto, reqs, params)
-		ans.Err = err != nil
-		return
-	}
+	runCase := func(c c14Case) c14Answer { return c14RunCase(d, devName, proto, c) }
 
 	for _, line := range lines {
 		var c c14Case
@@ -518,4 +543,174 @@ func TestVerifC14(t *testing.T) {
 	ctx, cancel := context.WithTimeout(context.Background(), 2*time.Second)
 	defer cancel()
 	d.removeDevice(ctx, devName)
+}
+
+// ------------------------------------------------------------------ commands in progress at the same time
+// TestVerifC14Conc: several callers (goroutines, as the SDK serves every REST call on its own) issue read and write
+// commands of all kinds at once against ONE Driver — several devices, and several callers on the same device. Each
+// device is a scripted reader of its own that records what it received in arrival order. A request line is a ROUND:
+// lanes of commands; the commands of a lane are issued one after the other by one goroutine, all lanes are released
+// together by a barrier after every argument has been built. The round is executed `rep` times. All judging (which
+// request belongs to which command, whether anything is mixed, lost or repeated) is done by checks/c14.py.
+
+type c14ConcCmd struct {
+	c14Case
+	Dev int `json:"dev"`
+}
+
+type c14ConcLine struct {
+	K     string         `json:"k"` // "init" | "round"
+	NDev  int            `json:"ndev"`
+	Rep   int            `json:"rep"`
+	Lanes [][]c14ConcCmd `json:"lanes"`
+}
+
+type c14ConcRun struct {
+	Res    [][]c14Answer `json:"res"`    // per lane, per command
+	Frames [][]c14Frame  `json:"frames"` // per device, arrival order
+	Fence  []bool        `json:"fence"`  // per device
+	Note   string        `json:"note,omitempty"`
+}
+
+type c14ConcAnswer struct {
+	Runs []c14ConcRun `json:"runs"`
+}
+
+func TestVerifC14Conc(t *testing.T) {
+	lines, w, done := verifIO(t)
+	defer done()
+
+	d, stopDrain := newC14Driver()
+	defer stopDrain()
+
+	var readers []*c14Reader
+	var names []string
+	var protos []protocolMap
+	var fenceN uint64
+	fence := func(i int) bool {
+		d.devicesMu.RLock()
+		dev := d.activeDevices[names[i]]
+		d.devicesMu.RUnlock()
+		if dev == nil {
+			return false
+		}
+		fenceN++
+		data := make([]byte, 8)
+		binary.BigEndian.PutUint64(data, fenceN)
+		ctx, cancel := context.WithTimeout(context.Background(), 10*time.Second)
+		defer cancel()
+		return dev.TrySend(ctx, &llrp.CustomMessage{VendorID: c14FenceVendor, MessageSubtype: c14FenceSubtype, Data: data}, &llrp.CustomMessage{}) == nil
+	}
+	collect := func(run *c14ConcRun) {
+		for i, rd := range readers {
+			run.Fence = append(run.Fence, fence(i))
+			run.Frames = append(run.Frames, rd.take())
+		}
+	}
+
+	for _, line := range lines {
+		var cl c14ConcLine
+		if err := json.Unmarshal([]byte(line), &cl); err != nil {
+			t.Fatalf("bad request line: %v", err)
+		}
+		var ans c14ConcAnswer
+		switch cl.K {
+		case "init":
+			for i := 0; i < cl.NDev; i++ {
+				rd := newC14Reader(t)
+				defer rd.ln.Close()
+				_, portStr, _ := net.SplitHostPort(rd.ln.Addr().String())
+				readers = append(readers, rd)
+				names = append(names, "c14Reader"+strconv.Itoa(i))
+				protos = append(protos, protocolMap{"tcp": {"host": "127.0.0.1", "port": portStr}})
+			}
+			var run c14ConcRun
+			for i, rd := range readers {
+				if _, _, err := d.getDevice(names[i], protos[i]); err != nil {
+					t.Fatal(err)
+				}
+				deadline := time.Now().Add(15 * time.Second)
+				for time.Now().Before(deadline) && rd.count(3) < 1 {
+					time.Sleep(2 * time.Millisecond)
+				}
+				if rd.count(3) < 1 {
+					run.Note += fmt.Sprintf("device %d: no SetReaderConfig seen after connect; ", i)
+				}
+			}
+			collect(&run)
+			ans.Runs = append(ans.Runs, run)
+		case "round":
+			rep := cl.Rep
+			if rep < 1 {
+				rep = 1
+			}
+			for r := 0; r < rep; r++ {
+				type prepared struct {
+					dev    int
+					kind   string
+					reqs   []dsModels.CommandRequest
+					params []*dsModels.CommandValue
+					note   string
+				}
+				prep := make([][]prepared, len(cl.Lanes))
+				var run c14ConcRun
+				run.Res = make([][]c14Answer, len(cl.Lanes))
+				for li, lane := range cl.Lanes {
+					run.Res[li] = make([]c14Answer, len(lane))
+					for _, c := range lane {
+						if c.Dev < 0 || c.Dev >= len(readers) {
+							t.Fatalf("bad device index %d", c.Dev)
+						}
+						reqs, params, note := c14Prepare(c.c14Case)
+						prep[li] = append(prep[li], prepared{c.Dev, c.K, reqs, params, note})
+					}
+				}
+				start := make(chan struct{})
+				var ready, fin sync.WaitGroup
+				for li := range prep {
+					ready.Add(1)
+					fin.Add(1)
+					go func(li int) {
+						defer fin.Done()
+						ready.Done()
+						<-start
+						for ci, p := range prep[li] {
+							a := c14Call(d, names[p.dev], protos[p.dev], p.kind, p.reqs, p.params)
+							if p.note != "" {
+								a.Note = p.note
+							}
+							run.Res[li][ci] = a
+						}
+					}(li)
+				}
+				ready.Wait()
+				close(start)
+				finished := make(chan struct{})
+				go func() { fin.Wait(); close(finished) }()
+				select {
+				case <-finished:
+				case <-time.After(90 * time.Second):
+					// the lanes still own run.Res: report without it
+					b, _ := json.Marshal(c14ConcAnswer{Runs: append(ans.Runs, c14ConcRun{Note: "stuck: the commands of this round had not all returned after 90 s"})})
+					w.Write(b)
+					w.WriteByte('\n')
+					w.Flush()
+					t.Fatalf("round stuck")
+				}
+				collect(&run)
+				ans.Runs = append(ans.Runs, run)
+			}
+		default:
+			t.Fatalf("unknown line kind %q", cl.K)
+		}
+		b, _ := json.Marshal(ans)
+		w.Write(b)
+		w.WriteByte('\n')
+	}
+
+	for _, n := range names {
+		ctx, cancel := context.WithTimeout(context.Background(), 2*time.Second)
+		d.removeDevice(ctx, n)
+		cancel()
+	}
 }
